@@ -11,19 +11,13 @@ CONSTANTS
   Atomic = TRUE
   ReportFine = FALSE
   AutoApprove = TRUE
-  Opts = {}
+  Opts = {"byp", "wait", "unwait", "nooct"}
+  ReportOnce = FALSE
   MaxLevel = 100
   EmitJson = TRUE
+  AtomicPush = TRUE
   FixSelect = TRUE
   FixDirect = TRUE
 CONSTRAINT Bound
 VIEW View
-INVARIANT C01_Incl
-INVARIANT C02_AllOrNone
-INVARIANT C05_Select
-INVARIANT C19_Children
-PROPERTY C03_Green
-PROPERTY C08_FF
-PROPERTY C08_Foreign
-PROPERTY C12_Held
 CHECK_DEADLOCK FALSE
